@@ -6,51 +6,77 @@ user does not himself overwrite or remove the built-in layer.
 -/
 namespace Mesa.Layers
 
-/-- An op by which the *user* (not the grid) writes to, re-points, takes a reference to or removes
-    the built-in `empty` layer of a `new` grid (layer id 0, name "empty").  The legacy `_empty_mask`
-    is not reachable through any op, so every op is safe there. -/
+/-- The static part of safety: an op by which the *user* (not the grid) writes to, re-points or removes the built-in
+    `empty` layer of a `new` grid (layer id 0, name "empty") through the layer or the cell attribute.  Taking a
+    reference to its array (`grab h 0`; legacy: `grabMask h` = `grid.empty_mask`) and reading through it is safe;
+    whether a *write* through a reference is safe depends on the state (`Op.safeAt`). -/
 def Op.safe (impl : Impl) : Op → Bool
   | .layerSet l _ _ => impl != .new || l != 0
   | .setCells l _ _ => impl != .new || l != 0
   | .setFrom l _ _ => impl != .new || l != 0
-  | .modifyCells l _ _ => impl != .new || l != 0
+  | .modifyCells l _ _ _ => impl != .new || l != 0
   | .modifyT l _ _ _ => impl != .new || l != 0
-  | .modifyU l _ _ _ => impl != .new || l != 0
+  | .modifyU l _ _ _ _ => impl != .new || l != 0
   | .modifyCell l _ _ => impl != .new || l != 0
   | .modifyCellU l _ _ _ => impl != .new || l != 0
-  | .grab _ l => impl != .new || l != 0
   | .cellSet n _ _ => impl != .new || n != "empty"
   | .cellSet2 l _ _ => impl != .new || l != 0
   | .detach n => impl != .new || n != "empty"
   | _ => true
 
-structure EmpInv (s : State) : Prop where
+/-- Safety of an op in the state it is issued in: a write through a user-held reference (`h[c] = v`) is the user's own
+    overwrite of the emptiness view exactly when the reference aliases the emptiness array (array 0: obtained by
+    `grab h 0` on a cell space, `grabMask h` on a legacy grid); everything else is judged statically. -/
+def Op.safeAt (s : State) : Op → Bool
+  | .hset h _ _ => match s.handles.lookup h with
+    | some (a, _) => a != 0
+    | none => true
+  | op => op.safe s.impl
+
+/-- a history each of whose ops is safe in the state it is issued in -/
+def safeHist : State → List Op → Prop
+  | _, [] => True
+  | s, op :: ops => op.safeAt s = true ∧ safeHist (step s op).1 ops
+
+instance safeHist.dec : (s : State) → (ops : List Op) → Decidable (safeHist s ops)
+  | _, [] => isTrue trivial
+  | s, op :: ops => by
+    unfold safeHist
+    exact @instDecidableAnd _ _ _ (safeHist.dec (step s op).1 ops)
+
+/-- `W`: the cells at which nothing is claimed (written by the user through a reference that aliases the emptiness
+    array); `W = fun _ => False` for the histories without such writes -/
+structure EmpInv (W : Coord → Prop) (s : State) : Prop where
   /-- new grids: the name "empty" is attached to layer 0, which still owns array 0 -/
   named : s.impl = .new → s.attached.lookup "empty" = some 0 ∧ (s.layers 0).data = 0 ∧ 0 < s.nLayers
-  /-- no user-held reference aliases array 0 -/
-  handles : ∀ h a d, s.handles.lookup h = some (a, d) → a ≠ 0
+  /-- new grids: the descriptor `empty` of the cell class holds layer 0 -/
+  dnamed : s.impl = .new → s.descr.lookup "empty" = some 0
   /-- an agent is placed at most once -/
   keys : (s.agents.map (·.1)).Nodup
   /-- SingleGrid: at most one agent per cell -/
   single : s.impl = .single → (s.agents.map (·.2)).Nodup
-  /-- array 0 is the indicator of emptiness -/
-  view : ∀ c, s.heap 0 c = boolInt (s.isEmptyCell c)
+  /-- array 0 is the indicator of emptiness (outside `W`) -/
+  view : ∀ c, ¬ W c → s.heap 0 c = boolInt (s.isEmptyCell c)
+
+variable {W : Coord → Prop}
 
 theorem isEmptyCell_iff (s : State) (c : Coord) : s.isEmptyCell c = true ↔ ∀ p ∈ s.agents, p.2 ≠ c := by
   simp [State.isEmptyCell]
 
-theorem EmpInv_init (impl : Impl) (dims : List Nat) (cap : Nat) : EmpInv (init impl dims cap) := by
+theorem EmpInv_init (impl : Impl) (dims : List Nat) (cap : Option Nat) : EmpInv W (init impl dims cap) := by
   constructor
   · intro h
     simp only [init] at h
     simp [init, h]
-  · intro h a d hh; simp [init] at hh
+  · intro h
+    simp only [init] at h
+    simp [init, h]
   · simp [init]
   · intro _; simp [init]
-  · intro c; simp [init, State.isEmptyCell, boolInt]
+  · intro c _; simp [init, State.isEmptyCell, boolInt]
 
 /-- the array of a layer other than the built-in one is not array 0 -/
-theorem data_ne_zero {s : State} (hw : WF s) (h : EmpInv s) {l : Nat} (hl : l < s.nLayers)
+theorem data_ne_zero {s : State} (hw : WF s) (h : EmpInv W s) {l : Nat} (hl : l < s.nLayers)
     (h0 : s.impl = .new → l ≠ 0) : (s.layers l).data ≠ 0 := by
   by_cases hi : s.impl = .new
   · obtain ⟨_, hd, hp⟩ := h.named hi
@@ -59,7 +85,7 @@ theorem data_ne_zero {s : State} (hw : WF s) (h : EmpInv s) {l : Nat} (hl : l < 
   · exact hw.legacy_data hi l hl
 
 /-- a name other than "empty" is not attached to layer 0 of a new grid -/
-theorem named_ne_zero {s : State} (hw : WF s) (h : EmpInv s) (hi : s.impl = .new) {n : String} {l : Nat}
+theorem named_ne_zero {s : State} (hw : WF s) (h : EmpInv W s) (hi : s.impl = .new) {n : String} {l : Nat}
     (hn : s.attached.lookup n = some l) (hne : n ≠ "empty") : l ≠ 0 := by
   intro he
   subst he
@@ -68,24 +94,27 @@ theorem named_ne_zero {s : State} (hw : WF s) (h : EmpInv s) (hi : s.impl = .new
   exact hne (h1.symm.trans h2)
 
 /-- transfer along an op that touches neither array 0, nor the agents, nor the built-in layer -/
-theorem EmpInv.transfer {s s' : State} (h : EmpInv s) (e1 : s'.impl = s.impl)
+theorem EmpInv.transfer {s s' : State} (h : EmpInv W s) (e1 : s'.impl = s.impl)
     (e2 : s.impl = .new → s'.attached.lookup "empty" = s.attached.lookup "empty")
     (e3 : s.impl = .new → s'.layers 0 = s.layers 0)
-    (e4 : s.nLayers ≤ s'.nLayers) (e5 : ∀ h a d, s'.handles.lookup h = some (a, d) → a ≠ 0)
-    (e6 : s'.agents = s.agents) (e7 : s'.heap 0 = s.heap 0) : EmpInv s' := by
+    (e4 : s.nLayers ≤ s'.nLayers)
+    (e6 : s'.agents = s.agents) (e7 : s'.heap 0 = s.heap 0)
+    (e8 : s.impl = .new → s'.descr.lookup "empty" = s.descr.lookup "empty" := by intros; rfl) : EmpInv W s' := by
   constructor
   · intro hi
     rw [e1] at hi
     obtain ⟨a, b, c⟩ := h.named hi
     exact ⟨(e2 hi).trans a, by rw [e3 hi]; exact b, by omega⟩
-  · exact e5
+  · intro hi
+    rw [e1] at hi
+    exact (e8 hi).trans (h.dnamed hi)
   · rw [e6]; exact h.keys
   · rw [e1, e6]; exact h.single
-  · intro c
+  · intro c hW
     rw [e7]
     have : s'.isEmptyCell c = s.isEmptyCell c := by simp [State.isEmptyCell, e6]
     rw [this]
-    exact h.view c
+    exact h.view c hW
 
 theorem upd_heap_zero (heap : Nat → Arr) (i : Nat) (x : Arr) (h : i ≠ 0) : upd heap i x 0 = heap 0 := by
   simp [upd, Ne.symm h]
@@ -94,7 +123,7 @@ theorem upd_heap_zero (heap : Nat → Arr) (i : Nat) (x : Arr) (h : i ≠ 0) : u
 
 /-- what `writeEmpty` does when the built-in layer is in place: array 0, in place -/
 theorem writeEmpty_eq {s : State}
-    (hn : s.impl = .new → s.attached.lookup "empty" = some 0 ∧ (s.layers 0).data = 0)
+    (hn : s.impl = .new → s.descr.lookup "empty" = some 0 ∧ (s.layers 0).data = 0)
     (c : Coord) (v : Int) :
     writeEmpty s c v = { s with heap := upd s.heap 0 ((s.heap 0).set c v) } := by
   unfold writeEmpty
@@ -102,7 +131,7 @@ theorem writeEmpty_eq {s : State}
   · next hi =>
     obtain ⟨h1, h2⟩ := hn hi
     unfold cellAttrWrite
-    simp only [State.named?, h1, h2]
+    simp only [h1, h2]
   · rfl
 
 theorem isEmptyCell_append (s : State) (a : Nat) (c c' : Coord) :
@@ -137,13 +166,13 @@ theorem lookup_of_mem_nodup {l : List (Nat × Coord)} {a : Nat} {c : Coord} (hn 
       exact ih hn.2 ht
 
 /-- entering cell `c`: `agents ++ [(a, c)]`, then `empty[c] = False` -/
-theorem EmpInv_enter {s : State} (h : EmpInv s) (a : Nat) (c : Coord)
+theorem EmpInv_enter {s : State} (h : EmpInv W s) (a : Nat) (c : Coord)
     (hk : a ∉ s.agents.map (·.1)) (hs : s.impl = .single → c ∉ s.agents.map (·.2)) :
-    EmpInv (writeEmpty { s with agents := s.agents ++ [(a, c)] } c 0) := by
-  rw [writeEmpty_eq (s := { s with agents := s.agents ++ [(a, c)] }) (fun hi => ⟨(h.named hi).1, (h.named hi).2.1⟩)]
+    EmpInv W (writeEmpty { s with agents := s.agents ++ [(a, c)] } c 0) := by
+  rw [writeEmpty_eq (s := { s with agents := s.agents ++ [(a, c)] }) (fun hi => ⟨h.dnamed hi, (h.named hi).2.1⟩)]
   constructor
   · exact h.named
-  · exact h.handles
+  · exact h.dnamed
   · show ((s.agents ++ [(a, c)]).map (·.1)).Nodup
     rw [List.map_append, List.nodup_append]
     refine ⟨h.keys, by simp, ?_⟩
@@ -161,18 +190,18 @@ theorem EmpInv_enter {s : State} (h : EmpInv s) (a : Nat) (c : Coord)
     subst hy
     intro he; subst he
     exact hs hi hx
-  · intro c'
+  · intro c' hW
     show upd s.heap 0 ((s.heap 0).set c 0) 0 c' = boolInt (({ s with agents := s.agents ++ [(a, c)] } : State).isEmptyCell c')
     rw [isEmptyCell_append, upd_same]
     unfold Arr.set
     by_cases hc : c' = c
     · subst hc; simp [boolInt]
     · have : c ≠ c' := fun e => hc e.symm
-      simp [hc, this, h.view c']
+      simp [hc, this, h.view c' hW]
 
 /-- leaving cell `c0`: drop the agent, then the implementation's emptiness write for the left cell -/
-theorem EmpInv_leave {s : State} (h : EmpInv s) (a : Nat) (c0 : Coord) (hl : s.agents.lookup a = some c0) :
-    EmpInv (afterLeave { s with agents := s.agents.filter (·.1 ≠ a) } c0) := by
+theorem EmpInv_leave {s : State} (h : EmpInv W s) (a : Nat) (c0 : Coord) (hl : s.agents.lookup a = some c0) :
+    EmpInv W (afterLeave { s with agents := s.agents.filter (·.1 ≠ a) } c0) := by
   have hmem := mem_of_lookup hl
   -- agents at other cells are untouched by the removal
   have hother : ∀ c', c' ≠ c0 →
@@ -190,32 +219,32 @@ theorem EmpInv_leave {s : State} (h : EmpInv s) (a : Nat) (c0 : Coord) (hl : s.a
     · intro hh p hp
       exact hh p (List.mem_filter.mp hp).1
   have hn : ({ s with agents := s.agents.filter (·.1 ≠ a) } : State).impl = .new →
-      ({ s with agents := s.agents.filter (·.1 ≠ a) } : State).attached.lookup "empty" = some 0 ∧
+      ({ s with agents := s.agents.filter (·.1 ≠ a) } : State).descr.lookup "empty" = some 0 ∧
       (({ s with agents := s.agents.filter (·.1 ≠ a) } : State).layers 0).data = 0 :=
-    fun hi => ⟨(h.named hi).1, (h.named hi).2.1⟩
+    fun hi => ⟨h.dnamed hi, (h.named hi).2.1⟩
   have hkeys : ((s.agents.filter (·.1 ≠ a)).map (·.1)).Nodup :=
     List.Nodup.sublist (List.Sublist.map _ List.filter_sublist) h.keys
   have hsingle : s.impl = .single → ((s.agents.filter (·.1 ≠ a)).map (·.2)).Nodup :=
     fun hi => List.Nodup.sublist (List.Sublist.map _ List.filter_sublist) (h.single hi)
   -- the value array 0 must take at c0
-  have hview0 : ∀ c', c' ≠ c0 → s.heap 0 c' =
+  have hview0 : ∀ c', ¬ W c' → c' ≠ c0 → s.heap 0 c' =
       boolInt (({ s with agents := s.agents.filter (·.1 ≠ a) } : State).isEmptyCell c') := by
-    intro c' hc'; rw [hother c' hc']; exact h.view c'
+    intro c' hW hc'; rw [hother c' hc']; exact h.view c' hW
   -- common shape of the result once the written value is known to be right
   have finish : ∀ v : Int,
       v = boolInt (({ s with agents := s.agents.filter (·.1 ≠ a) } : State).isEmptyCell c0) →
-      EmpInv (writeEmpty { s with agents := s.agents.filter (·.1 ≠ a) } c0 v) := by
+      EmpInv W (writeEmpty { s with agents := s.agents.filter (·.1 ≠ a) } c0 v) := by
     intro v hv
     rw [writeEmpty_eq hn]
-    refine ⟨h.named, h.handles, hkeys, hsingle, ?_⟩
-    intro c'
+    refine ⟨h.named, h.dnamed, hkeys, hsingle, ?_⟩
+    intro c' hW
     show upd s.heap 0 ((s.heap 0).set c0 v) 0 c' = _
     rw [upd_same]
     unfold Arr.set
     by_cases hc : c' = c0
     · subst hc; simp [hv]; rfl
     · simp only [hc, if_false]
-      exact hview0 c' hc
+      exact hview0 c' hW hc
   unfold afterLeave
   split
   · exact finish _ rfl
@@ -250,8 +279,8 @@ theorem EmpInv_leave {s : State} (h : EmpInv s) (a : Nat) (c0 : Coord) (hl : s.a
       rw [he]; rfl
     · next he =>
       -- MultiGrid, cell still occupied: no write, and array 0 already says "occupied"
-      refine ⟨h.named, h.handles, hkeys, hsingle, ?_⟩
-      intro c'
+      refine ⟨h.named, h.dnamed, hkeys, hsingle, ?_⟩
+      intro c' hW
       show s.heap 0 c' = _
       by_cases hc : c' = c0
       · subst hc
@@ -259,10 +288,10 @@ theorem EmpInv_leave {s : State} (h : EmpInv s) (a : Nat) (c0 : Coord) (hl : s.a
           rw [Bool.eq_false_iff]
           intro hh
           exact (isEmptyCell_iff s c').mp hh (a, c') hmem rfl
-        rw [h.view c', h1]
+        rw [h.view c' hW, h1]
         simp only [Bool.not_eq_true] at he
         rw [he]
-      · exact hview0 c' hc
+      · exact hview0 c' hW hc
 
 
 /-! ### every safe op preserves the invariant -/
@@ -303,7 +332,7 @@ theorem cell_free_of_others_zero {l : List (Nat × Coord)} {a : Nat} {c : Coord}
   rw [List.length_eq_zero_iff.mp ho] at this
   simp at this
 
-theorem EmpInv_place {s : State} (h : EmpInv s) (a : Nat) (c : Coord) : EmpInv (place s a c).1 := by
+theorem EmpInv_place {s : State} (h : EmpInv W s) (a : Nat) (c : Coord) : EmpInv W (place s a c).1 := by
   unfold place
   split
   · exact h
@@ -326,13 +355,13 @@ theorem EmpInv_place {s : State} (h : EmpInv s) (a : Nat) (c : Coord) : EmpInv (
           omega
         exact cell_free_of_others_zero this hk
 
-theorem EmpInv_remove {s : State} (h : EmpInv s) (a : Nat) : EmpInv (remove s a).1 := by
+theorem EmpInv_remove {s : State} (h : EmpInv W s) (a : Nat) : EmpInv W (remove s a).1 := by
   unfold remove
   split
   · exact h
   · next c0 hl => exact EmpInv_leave h a c0 hl
 
-theorem EmpInv_move {s : State} (h : EmpInv s) (a : Nat) (c : Coord) : EmpInv (move s a c).1 := by
+theorem EmpInv_move {s : State} (h : EmpInv W s) (a : Nat) (c : Coord) : EmpInv W (move s a c).1 := by
   unfold move
   split
   · exact h
@@ -372,19 +401,19 @@ theorem EmpInv_move {s : State} (h : EmpInv s) (a : Nat) (c : Coord) : EmpInv (m
         intro h2 _
         exact this h2
 
-theorem EmpInv_setCells {s : State} (hw : WF s) (h : EmpInv s) (l : Nat) (v : Int)
-    (cond : Option (Int → Bool)) (hs : s.impl = .new → l ≠ 0) : EmpInv (setCells s l v cond).1 := by
+theorem EmpInv_setCells {s : State} (hw : WF s) (h : EmpInv W s) (l : Nat) (v : Int)
+    (cond : Option (Int → Bool)) (hs : s.impl = .new → l ≠ 0) : EmpInv W (setCells s l v cond).1 := by
   unfold setCells
   split
   · exact h
   · next L hl =>
     obtain ⟨hlt, rfl⟩ := layer?_some hl
-    exact h.transfer rfl (fun _ => rfl) (fun _ => rfl) (Nat.le_refl _) h.handles rfl
+    exact h.transfer rfl (fun _ => rfl) (fun _ => rfl) (Nat.le_refl _) rfl
       (upd_heap_zero _ _ _ (data_ne_zero hw h hlt hs))
 
-theorem EmpInv_modifyCellsT {s : State} (hw : WF s) (h : EmpInv s) (l : Nat) (f : Option (Int → Int))
+theorem EmpInv_modifyCellsT {s : State} (hw : WF s) (h : EmpInv W s) (l : Nat) (f : Option (Int → Int))
     (cond : Option (Int → Bool)) (rd : DType) (hs : s.impl = .new → l ≠ 0) :
-    EmpInv (modifyCellsT s l f cond rd).1 := by
+    EmpInv W (modifyCellsT s l f cond rd).1 := by
   have hnp := hw.next_pos
   unfold modifyCellsT
   split
@@ -393,13 +422,13 @@ theorem EmpInv_modifyCellsT {s : State} (hw : WF s) (h : EmpInv s) (l : Nat) (f 
     obtain ⟨hlt, rfl⟩ := layer?_some hl
     split
     · exact h
-    · refine h.transfer rfl (fun _ => rfl) ?_ (Nat.le_refl _) h.handles rfl
+    · refine h.transfer rfl (fun _ => rfl) ?_ (Nat.le_refl _) rfl
         (upd_heap_zero _ _ _ (by omega))
       intro hi
       exact upd_other _ _ _ _ (fun e => hs hi e.symm)
 
-theorem EmpInv_modifyCell {s : State} (hw : WF s) (h : EmpInv s) (l : Nat) (c : Coord) (f : Option (Int → Int))
-    (hs : s.impl = .new → l ≠ 0) : EmpInv (modifyCell s l c f).1 := by
+theorem EmpInv_modifyCell {s : State} (hw : WF s) (h : EmpInv W s) (l : Nat) (c : Coord) (f : Option (Int → Int))
+    (hs : s.impl = .new → l ≠ 0) : EmpInv W (modifyCell s l c f).1 := by
   unfold modifyCell
   split
   · exact h
@@ -411,11 +440,25 @@ theorem EmpInv_modifyCell {s : State} (hw : WF s) (h : EmpInv s) (l : Nat) (c : 
       · exact h
       · split
         · exact h
-        · exact h.transfer rfl (fun _ => rfl) (fun _ => rfl) (Nat.le_refl _) h.handles rfl
+        · exact h.transfer rfl (fun _ => rfl) (fun _ => rfl) (Nat.le_refl _) rfl
             (upd_heap_zero _ _ _ (data_ne_zero hw h hlt hs))
 
-theorem EmpInv_step {s : State} (hw : WF s) (h : EmpInv s) (op : Op) (hs : op.safe s.impl = true) :
-    EmpInv (step s op).1 := by
+/-- registering a descriptor under a name that is not attached leaves the descriptor `empty` alone -/
+theorem descr_empty_setDescr {s : State} (h : EmpInv W s) (hi : s.impl = .new) {n : String} (lid : Nat)
+    (hnone : s.attached.lookup n = none) :
+    (if s.impl = .new then setDescr s.descr n lid else s.descr).lookup "empty" = s.descr.lookup "empty" := by
+  have hne : "empty" ≠ n := by
+    intro e; subst e
+    rw [(h.named hi).1] at hnone
+    simp at hnone
+  rw [if_pos hi]
+  unfold setDescr
+  have hb : ("empty" == n) = false := by simpa using hne
+  rw [List.lookup_cons, hb]
+  exact lookup_filter_ne _ _ _ hne
+
+theorem EmpInv_step {s : State} (hw : WF s) (h : EmpInv W s) (op : Op) (hs : op.safeAt s = true) :
+    EmpInv W (step s op).1 := by
   have hnp := hw.next_pos
   cases op with
   | create n dt d =>
@@ -423,7 +466,9 @@ theorem EmpInv_step {s : State} (hw : WF s) (h : EmpInv s) (op : Op) (hs : op.sa
     unfold create
     split
     · exact h
-    · refine h.transfer rfl ?_ ?_ (Nat.le_succ _) h.handles rfl (upd_heap_zero _ _ _ (by omega))
+    · next hchk =>
+      refine h.transfer rfl ?_ ?_ (Nat.le_succ _) rfl (upd_heap_zero _ _ _ (by omega))
+        (fun hi => descr_empty_setDescr h hi _ (attachCheck_none hchk).1)
       · intro hi
         show (s.attached ++ [(n, s.nLayers)]).lookup "empty" = _
         rw [List.lookup_append, (h.named hi).1]; rfl
@@ -434,7 +479,7 @@ theorem EmpInv_step {s : State} (hw : WF s) (h : EmpInv s) (op : Op) (hs : op.sa
     unfold newLayer
     split
     · exact h
-    · refine h.transfer rfl (fun _ => rfl) ?_ (Nat.le_succ _) h.handles rfl (upd_heap_zero _ _ _ (by omega))
+    · refine h.transfer rfl (fun _ => rfl) ?_ (Nat.le_succ _) rfl (upd_heap_zero _ _ _ (by omega))
       intro hi
       exact upd_other _ _ _ _ (by have := (h.named hi).2.2; omega)
   | attach l =>
@@ -444,9 +489,10 @@ theorem EmpInv_step {s : State} (hw : WF s) (h : EmpInv s) (op : Op) (hs : op.sa
     · exact h
     · split
       · exact h
-      · refine h.transfer rfl ?_ (fun _ => rfl) (Nat.le_refl _) h.handles rfl rfl
+      · next l' _ _ hchk =>
+        refine h.transfer rfl ?_ (fun _ => rfl) (Nat.le_refl _) rfl rfl
+          (fun hi => descr_empty_setDescr h hi _ (attachCheck_none hchk).1)
         intro hi
-        next l' _ _ _ =>
         show (s.attached ++ [(l'.name, l)]).lookup "empty" = _
         rw [List.lookup_append, (h.named hi).1]; rfl
   | detach n =>
@@ -454,10 +500,12 @@ theorem EmpInv_step {s : State} (hw : WF s) (h : EmpInv s) (op : Op) (hs : op.sa
     unfold detach
     split
     · exact h
-    · refine h.transfer rfl ?_ (fun _ => rfl) (Nat.le_refl _) h.handles rfl rfl
-      intro hi
-      simp only [Op.safe, hi, bne_self_eq_false, Bool.false_or, bne_iff_ne, ne_eq] at hs
-      exact lookup_filter_ne _ _ _ (fun e => hs e.symm)
+    · have hne : s.impl = .new → "empty" ≠ n := by
+        intro hi
+        simp only [Op.safeAt, Op.safe, hi, bne_self_eq_false, Bool.false_or, bne_iff_ne, ne_eq] at hs
+        exact fun e => hs e.symm
+      exact h.transfer rfl (fun hi => lookup_filter_ne _ _ _ (hne hi)) (fun _ => rfl) (Nat.le_refl _) rfl rfl
+        (fun hi => lookup_filter_ne _ _ _ (hne hi))
   | layerSet l c v =>
     simp only [step]
     unfold layerSet
@@ -467,10 +515,10 @@ theorem EmpInv_step {s : State} (hw : WF s) (h : EmpInv s) (op : Op) (hs : op.sa
       obtain ⟨hlt, rfl⟩ := layer?_some hl
       split
       · exact h
-      · refine h.transfer rfl (fun _ => rfl) (fun _ => rfl) (Nat.le_refl _) h.handles rfl
+      · refine h.transfer rfl (fun _ => rfl) (fun _ => rfl) (Nat.le_refl _) rfl
           (upd_heap_zero _ _ _ (data_ne_zero hw h hlt ?_))
         intro hi
-        simpa [Op.safe, hi] using hs
+        simpa [Op.safeAt, Op.safe, hi] using hs
   | layerGet l c => exact h
   | cellSet n c v =>
     simp only [step]
@@ -484,11 +532,12 @@ theorem EmpInv_step {s : State} (hw : WF s) (h : EmpInv s) (op : Op) (hs : op.sa
         · unfold cellAttrWrite
           split
           · next lid hn =>
-            have hne : n ≠ "empty" := by simpa [Op.safe, hi] using hs
+            have hne : n ≠ "empty" := by simpa [Op.safeAt, Op.safe, hi] using hs
+            rw [hw.descr_eq hi n] at hn
             have hl0 := named_ne_zero hw h hi hn hne
-            exact h.transfer rfl (fun _ => rfl) (fun _ => rfl) (Nat.le_refl _) h.handles rfl
+            exact h.transfer rfl (fun _ => rfl) (fun _ => rfl) (Nat.le_refl _) rfl
               (upd_heap_zero _ _ _ (data_ne_zero hw h (hw.att_lt n lid hn) (fun _ => hl0)))
-          · exact h.transfer rfl (fun _ => rfl) (fun _ => rfl) (Nat.le_refl _) h.handles rfl rfl
+          · exact h.transfer rfl (fun _ => rfl) (fun _ => rfl) (Nat.le_refl _) rfl rfl
     · next hi =>
       split
       · exact h
@@ -497,7 +546,7 @@ theorem EmpInv_step {s : State} (hw : WF s) (h : EmpInv s) (op : Op) (hs : op.sa
         split
         · exact h
         · have hi' : s.impl ≠ .new := hi
-          exact h.transfer rfl (fun _ => rfl) (fun _ => rfl) (Nat.le_refl _) h.handles rfl
+          exact h.transfer rfl (fun _ => rfl) (fun _ => rfl) (Nat.le_refl _) rfl
             (upd_heap_zero _ _ _ (data_ne_zero hw h (hw.att_lt n lid hn) (fun e => absurd e hi')))
   | cellGet n c => exact h
   | cellSet2 l c w =>
@@ -512,17 +561,18 @@ theorem EmpInv_step {s : State} (hw : WF s) (h : EmpInv s) (op : Op) (hs : op.sa
         obtain ⟨hlt, rfl⟩ := layer?_some hl
         split
         · exact h
-        · refine h.transfer rfl (fun _ => rfl) (fun _ => rfl) (Nat.le_refl _) h.handles rfl
+        · refine h.transfer rfl (fun _ => rfl) (fun _ => rfl) (Nat.le_refl _) rfl
             (upd_heap_zero _ _ _ (data_ne_zero hw h hlt ?_))
           intro hi
-          simpa [Op.safe, hi] using hs
+          simpa [Op.safeAt, Op.safe, hi] using hs
   | cellGet2 l c => exact h
   | setCells l w cond =>
-    have hl0 : s.impl = .new → l ≠ 0 := fun hi => by simpa [Op.safe, hi] using hs
+    have hl0 : s.impl = .new → l ≠ 0 := fun hi => by simpa [Op.safeAt, Op.safe, hi] using hs
     cases w with
-    | raw v => exact EmpInv_setCells hw h l v cond hl0
+    | raw v => exact vecGuard_fst (P := EmpInv W) _ _ _ _ (EmpInv_setCells hw h l v cond hl0) h
     | py x =>
       simp only [step]
+      refine vecGuard_fst (P := EmpInv W) _ _ _ _ ?_ h
       unfold setCellsV
       split
       · exact h
@@ -542,22 +592,27 @@ theorem EmpInv_step {s : State} (hw : WF s) (h : EmpInv s) (op : Op) (hs : op.sa
         · exact h
         · split
           · exact h
-          · refine h.transfer rfl (fun _ => rfl) (fun _ => rfl) (Nat.le_refl _) h.handles rfl
-              (upd_heap_zero _ _ _ (data_ne_zero hw h hlt ?_))
-            intro hi
-            simpa [Op.safe, hi] using hs
+          · split
+            · exact h
+            · refine h.transfer rfl (fun _ => rfl) (fun _ => rfl) (Nat.le_refl _) rfl
+                (upd_heap_zero _ _ _ (data_ne_zero hw h hlt ?_))
+              intro hi
+              simpa [Op.safeAt, Op.safe, hi] using hs
   | modifyT l f cond rd =>
-    exact EmpInv_modifyCellsT hw h l f cond rd (fun hi => by simpa [Op.safe, hi] using hs)
-  | modifyU l op x cond =>
+    exact vecGuard_fst (P := EmpInv W) _ _ _ _
+      (EmpInv_modifyCellsT hw h l f cond rd (fun hi => by simpa [Op.safeAt, Op.safe, hi] using hs)) h
+  | modifyU l vec op x cond =>
     simp only [step]
+    refine vecGuard_fst (P := EmpInv W) _ _ _ _ ?_ h
     unfold modifyU
     split
     · exact h
     · split
       · exact h
-      · exact EmpInv_modifyCellsT hw h l _ cond _ (fun hi => by simpa [Op.safe, hi] using hs)
-  | modifyCells l f cond =>
+      · exact EmpInv_modifyCellsT hw h l _ cond _ (fun hi => by simpa [Op.safeAt, Op.safe, hi] using hs)
+  | modifyCells l vec f cond =>
     simp only [step]
+    refine vecGuard_fst (P := EmpInv W) _ _ _ _ ?_ h
     unfold modifyCells
     split
     · exact h
@@ -565,10 +620,10 @@ theorem EmpInv_step {s : State} (hw : WF s) (h : EmpInv s) (op : Op) (hs : op.sa
       obtain ⟨hlt, rfl⟩ := layer?_some hl
       split
       · exact h
-      · refine h.transfer rfl (fun _ => rfl) ?_ (Nat.le_refl _) h.handles rfl
+      · refine h.transfer rfl (fun _ => rfl) ?_ (Nat.le_refl _) rfl
           (upd_heap_zero _ _ _ (by omega))
         intro hi
-        have : l ≠ 0 := by simpa [Op.safe, hi] using hs
+        have : l ≠ 0 := by simpa [Op.safeAt, Op.safe, hi] using hs
         exact upd_other _ _ _ _ (fun e => this e.symm)
   | modifyCell l c f =>
     simp only [step]
@@ -583,10 +638,10 @@ theorem EmpInv_step {s : State} (hw : WF s) (h : EmpInv s) (op : Op) (hs : op.sa
         · exact h
         · split
           · exact h
-          · refine h.transfer rfl (fun _ => rfl) (fun _ => rfl) (Nat.le_refl _) h.handles rfl
+          · refine h.transfer rfl (fun _ => rfl) (fun _ => rfl) (Nat.le_refl _) rfl
               (upd_heap_zero _ _ _ (data_ne_zero hw h hlt ?_))
             intro hi
-            simpa [Op.safe, hi] using hs
+            simpa [Op.safeAt, Op.safe, hi] using hs
   | modifyCellU l c op x =>
     simp only [step]
     unfold modifyCellU
@@ -598,7 +653,7 @@ theorem EmpInv_step {s : State} (hw : WF s) (h : EmpInv s) (op : Op) (hs : op.sa
         · exact h
         · split
           · exact h
-          · exact EmpInv_modifyCell hw h l c _ (fun hi => by simpa [Op.safe, hi] using hs)
+          · exact EmpInv_modifyCell hw h l c _ (fun hi => by simpa [Op.safeAt, Op.safe, hi] using hs)
   | fromData n hd =>
     simp only [step]
     unfold fromData
@@ -608,7 +663,7 @@ theorem EmpInv_step {s : State} (hw : WF s) (h : EmpInv s) (op : Op) (hs : op.sa
       · exact h
       · split
         · exact h
-        · refine h.transfer rfl (fun _ => rfl) ?_ (Nat.le_succ _) h.handles rfl (upd_heap_zero _ _ _ (by omega))
+        · refine h.transfer rfl (fun _ => rfl) ?_ (Nat.le_succ _) rfl (upd_heap_zero _ _ _ (by omega))
           intro hi
           exact upd_other _ _ _ _ (by have := (h.named hi).2.2; omega)
   | grab hd l =>
@@ -617,17 +672,13 @@ theorem EmpInv_step {s : State} (hw : WF s) (h : EmpInv s) (op : Op) (hs : op.sa
     split
     · exact h
     · next L hl =>
-      obtain ⟨hlt, rfl⟩ := layer?_some hl
-      refine h.transfer rfl (fun _ => rfl) (fun _ => rfl) (Nat.le_refl _) ?_ rfl rfl
-      intro hh a d hlk
-      simp only [List.lookup_cons] at hlk
-      split at hlk
-      · simp at hlk
-        rw [← hlk.1]
-        refine data_ne_zero hw h hlt ?_
-        intro hi
-        simpa [Op.safe, hi] using hs
-      · exact h.handles hh a d hlk
+      exact h.transfer rfl (fun _ => rfl) (fun _ => rfl) (Nat.le_refl _) rfl rfl
+  | grabMask hd =>
+    simp only [step]
+    unfold grabMask
+    split
+    · exact h
+    · exact h.transfer rfl (fun _ => rfl) (fun _ => rfl) (Nat.le_refl _) rfl rfl
   | hget hd c => exact h
   | hset hd c v =>
     simp only [step]
@@ -637,8 +688,9 @@ theorem EmpInv_step {s : State} (hw : WF s) (h : EmpInv s) (op : Op) (hs : op.sa
     · next a d hlk =>
       split
       · exact h
-      · exact h.transfer rfl (fun _ => rfl) (fun _ => rfl) (Nat.le_refl _) h.handles rfl
-          (upd_heap_zero _ _ _ (h.handles hd a d hlk))
+      · have ha : a ≠ 0 := by simpa [Op.safeAt, hlk] using hs
+        exact h.transfer rfl (fun _ => rfl) (fun _ => rfl) (Nat.le_refl _) rfl
+          (upd_heap_zero _ _ _ ha)
   | hdump hd => exact h
   | dump l => exact h
   | dumpName n => exact h
@@ -656,7 +708,7 @@ theorem EmpInv_step {s : State} (hw : WF s) (h : EmpInv s) (op : Op) (hs : op.sa
     · exact h
     · split
       · exact h
-      · exact h.transfer rfl (fun _ => rfl) (fun _ => rfl) (Nat.le_refl _) h.handles rfl rfl
+      · exact h.transfer rfl (fun _ => rfl) (fun _ => rfl) (Nat.le_refl _) rfl rfl
   | nbhdMask k geom torus c ic r =>
     simp only [step]
     unfold nbhdMask
@@ -666,7 +718,7 @@ theorem EmpInv_step {s : State} (hw : WF s) (h : EmpInv s) (op : Op) (hs : op.sa
       · exact h
       · split
         · exact h
-        · exact h.transfer rfl (fun _ => rfl) (fun _ => rfl) (Nat.le_refl _) h.handles rfl rfl
+        · exact h.transfer rfl (fun _ => rfl) (fun _ => rfl) (Nat.le_refl _) rfl rfl
   | select ms oe conds exts save =>
     simp only [step]
     split
@@ -675,7 +727,7 @@ theorem EmpInv_step {s : State} (hw : WF s) (h : EmpInv s) (op : Op) (hs : op.sa
       · exact h
       · split
         · exact h
-        · exact h.transfer rfl (fun _ => rfl) (fun _ => rfl) (Nat.le_refl _) h.handles rfl rfl
+        · exact h.transfer rfl (fun _ => rfl) (fun _ => rfl) (Nat.le_refl _) rfl rfl
 
 theorem step_impl (s : State) (op : Op) : (step s op).1.impl = s.impl := by
   cases op with
@@ -695,21 +747,27 @@ theorem step_impl (s : State) (op : Op) : (step s op).1.impl = s.impl := by
   | cellGet2 l c => rfl
   | setCells l w cond =>
     cases w with
-    | raw v => exact (sameShape_setCells ..).impl
-    | py x => exact (sameShape_setCellsV ..).impl
+    | raw v => exact vecGuard_fst (P := fun t => t.impl = s.impl) _ _ _ _ (sameShape_setCells ..).impl rfl
+    | py x => exact vecGuard_fst (P := fun t => t.impl = s.impl) _ _ _ _ (sameShape_setCellsV ..).impl rfl
   | setFrom l hd cond => exact (sameShape_setFrom ..).impl
-  | modifyCells l f cond =>
-    simp only [step]; unfold modifyCells
+  | modifyCells l vec f cond =>
+    simp only [step]
+    refine vecGuard_fst (P := fun t => t.impl = s.impl) _ _ _ _ ?_ rfl
+    unfold modifyCells
     split
     · rfl
     · split <;> rfl
   | modifyT l f cond rd =>
-    simp only [step]; unfold modifyCellsT
+    simp only [step]
+    refine vecGuard_fst (P := fun t => t.impl = s.impl) _ _ _ _ ?_ rfl
+    unfold modifyCellsT
     split
     · rfl
     · split <;> rfl
-  | modifyU l op x cond =>
-    simp only [step]; unfold modifyU
+  | modifyU l vec op x cond =>
+    simp only [step]
+    refine vecGuard_fst (P := fun t => t.impl = s.impl) _ _ _ _ ?_ rfl
+    unfold modifyU
     split
     · rfl
     · split
@@ -728,6 +786,7 @@ theorem step_impl (s : State) (op : Op) : (step s op).1.impl = s.impl := by
       · rfl
       · split <;> rfl
   | grab hd l => simp only [step]; unfold grab; split <;> rfl
+  | grabMask hd => simp only [step]; unfold grabMask; split <;> rfl
   | hget hd c => rfl
   | hset hd c v => exact (sameShape_hset ..).impl
   | hdump hd => rfl
@@ -750,15 +809,89 @@ theorem step_impl (s : State) (op : Op) : (step s op).1.impl = s.impl := by
       · rfl
       · split <;> rfl
 
-theorem Inv_run {s : State} (hw : WF s) (h : EmpInv s) (ops : List Op)
-    (hs : ∀ op ∈ ops, op.safe s.impl = true) : EmpInv (run s ops).1 := by
+theorem Inv_run {s : State} (hw : WF s) (h : EmpInv W s) (ops : List Op)
+    (hs : safeHist s ops) : EmpInv W (run s ops).1 := by
   induction ops generalizing s with
   | nil => exact h
   | cons op ops ih =>
     simp only [run]
-    refine ih (WF_step hw op) (EmpInv_step hw h op (hs op (List.mem_cons_self ..))) ?_
-    intro op' hop'
-    rw [step_impl]
-    exact hs op' (List.mem_cons_of_mem _ hop')
+    exact ih (WF_step hw op) (EmpInv_step hw h op hs.1) hs.2
+
+/-! ### histories in which the user does write through an aliasing reference: wrong at most there -/
+
+theorem EmpInv.mono {W' : Coord → Prop} {s : State} (h : EmpInv W s) (hsub : ∀ c, W c → W' c) : EmpInv W' s :=
+  ⟨h.named, h.dnamed, h.keys, h.single, fun c hc => h.view c (fun hw => hc (hsub c hw))⟩
+
+/-- the cells written through a reference that aliases the emptiness array (array 0), in the course of a history -/
+def aliasWrites : State → List Op → Coord → Prop
+  | _, [], _ => False
+  | s, op :: ops, x =>
+    (match op with
+      | .hset h c _ => (∃ d, s.handles.lookup h = some (0, d)) ∧ x = c
+      | _ => False) ∨ aliasWrites (step s op).1 ops x
+
+/-- one write through a reference, aliasing or not: afterwards nothing is claimed at the written cell if it aliased -/
+theorem EmpInv_hset {s : State} (h : EmpInv W s) (hd : Nat) (c : Coord) (v : Int) :
+    EmpInv (fun x => W x ∨ ((∃ d, s.handles.lookup hd = some (0, d)) ∧ x = c)) (hset s hd c v).1 := by
+  unfold hset
+  split
+  · exact h.mono fun _ hw => Or.inl hw
+  · next a d hlk =>
+    split
+    · exact h.mono fun _ hw => Or.inl hw
+    · by_cases ha : a = 0
+      · subst ha
+        refine ⟨h.named, h.dnamed, h.keys, h.single, ?_⟩
+        intro c' hW
+        show upd s.heap 0 ((s.heap 0).set c v) 0 c' = _
+        rw [upd_same]
+        unfold Arr.set
+        have hne : c' ≠ c := fun e => hW (Or.inr ⟨⟨d, hlk⟩, e⟩)
+        simp only [hne, if_false]
+        exact h.view c' (fun hw => hW (Or.inl hw))
+      · exact (h.transfer (s' := { s with heap := upd s.heap a ((s.heap a).set c v) }) rfl (fun _ => rfl) (fun _ => rfl)
+          (Nat.le_refl _) rfl (upd_heap_zero _ _ _ ha)).mono fun _ hw => Or.inl hw
+
+/-- Over a history whose ops are statically safe (no write to / re-pointing / removal of the built-in layer through the
+    layer or the cell attribute) but which may write through references of any kind: the view is right everywhere except
+    possibly at the cells written through a reference that aliased the emptiness array. -/
+theorem Inv_run_alias {s : State} (hw : WF s) (h : EmpInv W s) (ops : List Op)
+    (hs : ∀ op ∈ ops, op.safe s.impl = true) :
+    EmpInv (fun x => W x ∨ aliasWrites s ops x) (run s ops).1 := by
+  induction ops generalizing s W with
+  | nil => exact h.mono fun _ hw' => Or.inl hw'
+  | cons op ops ih =>
+    simp only [run]
+    have hrest : ∀ op' ∈ ops, op'.safe (step s op).1.impl = true := by
+      intro op' hop'
+      rw [step_impl]
+      exact hs op' (List.mem_cons_of_mem _ hop')
+    have hop := hs op (List.mem_cons_self ..)
+    cases op
+    case hset hd c v =>
+      have h1 := EmpInv_hset h hd c (s.handleWVal hd v)
+      refine (ih (WF_step hw _) h1 hrest).mono ?_
+      rintro x ((hx | hx) | hx)
+      · exact Or.inl hx
+      · exact Or.inr (Or.inl hx)
+      · exact Or.inr (Or.inr hx)
+    all_goals
+      refine (ih (WF_step hw _) (EmpInv_step hw h _ (by exact hop)) hrest).mono ?_
+      rintro x (hx | hx)
+      · exact Or.inl hx
+      · exact Or.inr (Or.inr hx)
+
+/-- a history of statically safe ops without writes through references is safe in every state -/
+theorem safeHist_of_static (s : State) (ops : List Op) (h1 : ∀ op ∈ ops, op.safe s.impl = true)
+    (h2 : ∀ op ∈ ops, ∀ h c v, op ≠ .hset h c v) : safeHist s ops := by
+  induction ops generalizing s with
+  | nil => trivial
+  | cons op ops ih =>
+    refine ⟨?_, ih _ (fun o ho => by rw [step_impl]; exact h1 o (List.mem_cons_of_mem _ ho))
+      (fun o ho => h2 o (List.mem_cons_of_mem _ ho))⟩
+    have := h1 op (List.mem_cons_self ..)
+    cases op
+    case hset hd c v => exact absurd rfl (h2 _ (List.mem_cons_self ..) hd c v)
+    all_goals exact this
 
 end Mesa.Layers
